@@ -1,6 +1,7 @@
 """Registry: property -> profiles (plan generators), run counts per tier, oracle set."""
 from . import plans as P
 from . import oracles as O
+from . import exec_parser as XP
 
 # profile name -> (generator function, options)
 PROFILES = {}
@@ -25,6 +26,10 @@ profile('core-cancel', P.gen_core, cancels=0.5, kinds=[(3, 'rr'), (3, 'stream'),
 profile('core-ends', P.gen_core, cancels=0.25, p_resp_pub=0.7, p_req_pub=0.6, p_resp_sub=0.8,
         kinds=[(2, 'rr'), (3, 'stream'), (5, 'channel'), (1, 'fnf')])
 
+profile('core-ids', P.gen_ids, cancels=0.15)
+
+profile('parser', XP.gen_parser)
+
 # property -> {'profiles': [(name, quick_runs, thorough_runs)], 'oracles': [...]}
 CHECKS = {
     'C01': {'profiles': [('core', 3000, 120000), ('core-msg', 1000, 40000), ('core-frag', 1500, 60000),
@@ -32,12 +37,15 @@ CHECKS = {
             'oracles': [O.oracle_c01], 'level': 'exploration'},
     'C03': {'profiles': [('core-frag', 3000, 120000), ('core-stall', 1500, 60000), ('core-msg', 1000, 40000)],
             'oracles': [O.oracle_c03], 'level': 'exploration'},
+    'C04': {'profiles': [('parser', 20000, 600000)], 'oracles': [XP.oracle_c04], 'level': 'exploration'},
     'C05': {'profiles': [('core-stall', 4000, 160000), ('core-frag', 1500, 60000), ('core', 1000, 40000)],
             'oracles': [O.oracle_c05], 'level': 'exploration'},
     'C06': {'profiles': [('core-credit', 4000, 160000), ('core', 1500, 60000), ('core-stall', 1000, 40000)],
             'oracles': [O.oracle_c06], 'level': 'exploration'},
     'C08': {'profiles': [('core', 2500, 100000), ('core-cancel', 2500, 100000), ('core-ends', 1500, 60000)],
             'oracles': [O.oracle_c08], 'level': 'exploration'},
+    'C13': {'profiles': [('core-ids', 5000, 200000), ('core', 1000, 40000)],
+            'oracles': [O.oracle_c13], 'level': 'exploration'},
     'C10': {'profiles': [('core-ends', 4000, 160000), ('core', 1500, 60000), ('core-frag', 1000, 40000)],
             'oracles': [O.oracle_c10], 'level': 'exploration'},
 }
@@ -80,3 +88,49 @@ ASSUMPTIONS_DEFAULT = [
     'sampling, not enumeration: a clean batch is evidence, not proof',
 ]
 ASSUMPTIONS = {}
+
+NOT_BUILT = 'check not built yet in this phase (see DESIGN.md §7 build order); no claim is made'
+NOT_APPLICABLE = {
+    'C02': 'pure function of the frame value (codec round-trip / backend independence): no schedule, clock, fault or '
+           'interleaving for a simulator to own; deciding it would be input generation, not this technique (DESIGN.md §4)',
+    'C18': 'pure encode/decode functions of extension metadata: no nondeterminism to simulate (DESIGN.md §4)',
+}
+for _p in ['C%02d' % i for i in range(1, 21)]:
+    NOT_APPLICABLE.setdefault(_p, NOT_BUILT)
+
+MANIFEST_NOTES = ('All checks are ./simcheck check <id> --tier quick|thorough (fixed run counts per tier, 16 forked workers, '
+                  'VERIF_SEED honoured). Exit 0 held / 1 violation (VIOLATION property=<id> replay=<path>) / 2 harness error / '
+                  '3 incomplete. Known findings: /verif/known_findings.json (KNOWN-FINDING lines, exit 0).')
+
+_EXPL = ('seeded search over schedules, delivery timings, read chunkings, write stalls and scenario shapes; every run is one '
+         'exactly replayable simulated execution of the real client and server; a clean batch is evidence, not proof')
+MANIFEST_TEXT = {
+    'C01': {'text': 'exploration: ' + _EXPL + '. Oracle: tagged payloads, delivered == emitted per interaction and direction, '
+                    'exactly once, no cross-talk; errored/cancelled interactions deliver a prefix.',
+            'note': 'reference content function and recording application layer are trusted; reliable ordered transport assumed'},
+    'C03': {'text': 'exploration (narrow claim): wire invariant on every fragment of every simulated run (size limit, types, '
+                    'follows/complete flags, metadata before data, single frame when it fits) plus peer reassembly vs queued '
+                    'source. Lengths are sampled with a bias to fragment boundaries, not enumerated.',
+            'note': 'independent reference decoder on the wire; FrameFragmentCache.append tapped at class level'},
+    'C04': {'text': 'exploration: the same byte stream fed through the real StreamReader + TransportTCP + FrameParser under '
+                    'seeded read chunkings and buffer sizes must decode to the same frames as the one-shot parse and as the '
+                    'independent reference decoder; messages through the real aiohttp transports yield at most the frame '
+                    'they contain; termination guarded deterministically.',
+            'note': 'frame sequences are sampled (valid frames of all 14 types + correctly delimited junk)'},
+    'C05': {'text': 'exploration: ' + _EXPL + ', biased to write stalls, bursts and small fragment sizes. Oracle: per stream, '
+                    'reassembled wire units in wire order equal queued frames in queue order; no frame of a stream between '
+                    'the fragments of another frame of that stream.',
+            'note': 'queue order observed by an instance-level tap on send_frame/send_priority_frame; stream 0 exempt'},
+    'C06': {'text': 'exploration: ' + _EXPL + '. Oracle: credit ledger per stream at the producer (payloads queued <= credit '
+                    'received so far), application grants transmitted with exactly their value, nothing withheld at quiescence.',
+            'note': 'library sources: StreamFromGenerator, StreamFromAsyncGenerator (observable-backed ones under C20)'},
+    'C08': {'text': 'exploration: ' + _EXPL + '. Oracle: per-role stream state machine judged at enqueue time against the '
+                    'endpoint\'s own receptions.',
+            'note': 'literal reading of the statement: own ERROR, own requester CANCEL, both directions completed terminate emission'},
+    'C10': {'text': 'exploration: ' + _EXPL + ' over scenario plans in which every interaction terminates; oracle: stream table '
+                    'and reassembly cache of both endpoints empty at quiescence; reduced id space makes ids be reused.',
+            'note': 'private observations _stream_control._streams and _frame_fragment_cache._frames_by_stream_id (as the suite)'},
+    'C13': {'text': 'exploration: ' + _EXPL + ' with the id space reduced to 2^k-1 (7..63) or the cursor placed just below 2^31 so '
+                    'allocation wraps while ids are live. Oracle: reference allocator over must-live / maybe-live sets.',
+            'note': '_maximum_stream_id / _current_stream_id knobs set by the harness, as the suite does'},
+}
